@@ -178,6 +178,15 @@ def complex_symmetric_stream(ctx, n):
         A = A + A.T
         i, j = rng.sample(range(3), 2)
         A[i, j] += 1j * rng.choice([1, -1, 2]); A[j, i] = A[i, j]
+        if k % 2:
+            # a block [[a, ib], [ib, a]] with a = ±b: regular as a symmetric matrix (a² + b² ≠ 0), singular if it were read as Hermitian
+            a0 = float(rng.choice([1, 2, -1, 3]))
+            i, j = rng.sample(range(3), 2)
+            r = [x for x in range(3) if x not in (i, j)][0]
+            A = np.zeros((3, 3), dtype=complex)
+            A[i, i] = A[j, j] = a0
+            A[i, j] = A[j, i] = 1j * a0 * rng.choice([1, -1])
+            A[r, r] = float(rng.choice([1, -1, 2]))
         if abs(np.linalg.det(A)) < 0.5:
             continue
         l = np.array([float(rng.randint(-2, 2)), float(rng.randint(-2, 2)), float(rng.randint(-3, 3))])
